@@ -1277,3 +1277,73 @@ Lemma peraxis_textbook_d (axes : list axis) (js : list nat) (G : list nat -> R) 
   Forall2 ref_ok axes js ->
   peraxis_point (map a_s axes) (map a_c axes) (wrapped (shape_of axes) G) (map a_x axes) = ref_eval axes js G.
 Proof. intros HF. rewrite peraxis_tensor. exact (tensor_eval_ref axes js G HF). Qed.
+
+(* ------------------------------------------------------------------ *)
+(* Resampling with linear interpolation is exact for (sampled) affine functions: the resampled
+   array is the function sampled on the target grid, whenever the target nodes lie in the hull
+   of the source nodes                                                        *)
+Lemma cart_In {A} (mesh : list (list A)) (p : list A) :
+  In p (cart mesh) -> Forall2 (fun xs x => In x xs) mesh p.
+Proof.
+  revert p; induction mesh as [|xs r IH]; intros p Hp; cbn [cart] in Hp.
+  - destruct Hp as [<-|[]]. constructor.
+  - apply in_flat_map in Hp as (a & Ha & Hp). apply in_map_iff in Hp as (q & <- & Hq).
+    constructor; [exact Ha | apply IH; exact Hq].
+Qed.
+
+Definition src_tgt_ok (t : list R * list R) : Prop :=
+  Asc (fst t) /\ (2 <= length (fst t))%nat /\
+  Forall (fun x => nth 0 (fst t) 0 <= x <= nth (length (fst t) - 1) (fst t) 0) (snd t).
+
+Lemma axes_of_point (l : list (list R * list R)) (p : list R) :
+  Forall src_tgt_ok l -> Forall2 (fun xs x => In x xs) (map snd l) p ->
+  exists axes : list axis,
+    map a_s axes = map (fun _ => SLinear) l /\ map a_c axes = map fst l /\ map a_x axes = p /\
+    Forall hull_ok axes /\ Forall (fun t => a_s t = SLinear) axes.
+Proof.
+  intros Hok. revert p; induction Hok as [|[c xs] r (Ha & Hn & Hxs) Hr IH]; intros p HF; cbn [map] in HF.
+  - inversion HF; subst. exists []. repeat split; constructor.
+  - inversion HF as [|? x ? q Hx HF']; subst. cbn [fst snd] in *.
+    destruct (IH q HF') as (axes & Hs & Hc & Hp & Hh & Hl).
+    exists ((SLinear, c, x) :: axes). cbn [map]. unfold a_s at 1, a_c at 1, a_x at 1. cbn [fst snd].
+    rewrite Hs, Hc, Hp. repeat split; try reflexivity.
+    + constructor; [|exact Hh]. unfold hull_ok, a_c, a_x. cbn [fst snd].
+      repeat split; try assumption; rewrite Forall_forall in Hxs; apply (Hxs x Hx).
+    + constructor; [reflexivity | exact Hl].
+Qed.
+
+Lemma resample_affine (l : list (list R * list R)) a0 al :
+  Forall src_tgt_ok l ->
+  let cvs := map fst l in let mesh := map snd l in
+  let f := fun p : list R => a0 + lincomb al p in
+  peraxis_mesh (map (fun _ => SLinear) l) cvs (vget (map (@length R) cvs) (collocate f cvs)) mesh
+  = collocate f mesh.
+Proof.
+  intros Hok cvs mesh f.
+  pose (ml := map (fun t : list R * list R => (SLinear, fst t, snd t)) l : list maxis).
+  assert (Hs : map m_s ml = map (fun _ => SLinear) l) by (unfold ml; rewrite map_map; reflexivity).
+  assert (Hc : map m_c ml = cvs) by (unfold ml, cvs; rewrite map_map; reflexivity).
+  assert (Hx : map m_xs ml = mesh) by (unfold ml, mesh; rewrite map_map; reflexivity).
+  rewrite <- Hs. rewrite <- Hc at 1. rewrite <- Hx at 1.
+  rewrite peraxis_mesh_pointwise, Hs, Hc, Hx. unfold collocate at 2.
+  apply map_ext_in. intros p Hp.
+  destruct (axes_of_point l p Hok (cart_In mesh p Hp)) as (axes & Has & Hac & Hax & Hh & Hl).
+  fold cvs in Hac. rewrite <- Has, <- Hax. rewrite <- Hac at 1.
+  replace (vget (map (@length R) cvs) (collocate f cvs)) with (sampled axes f)
+    by (unfold sampled; rewrite shape_of_lengths, Hac; reflexivity).
+  apply (sample_affine_linear axes a0 al Hh Hl).
+Qed.
+
+Lemma reference_example :
+  Forall2 ref_ok [(SLinear, [0; 1; 3], 2); (SNearest, [0; 1; 3], 2)] [0%nat; 2%nat].
+Proof.
+  pose proof Asc_example as Ha.
+  constructor; [split; [exact Ha | cbn; repeat constructor]|].
+  constructor; [|constructor]. split; [exact Ha|]. cbn [a_s a_c a_x fst snd].
+  (* x = 2 is the midpoint of nodes 1 and 3: the right one (index 2) is the closest-rightmost *)
+  assert (Hn : nearest_nat [0; 1; 3] 2 = 2%nat).
+  { pose proof (tie_right [0; 1; 3] 1 Ha ltac:(cbn; repeat constructor)) as Ht. cbn [nth] in Ht.
+    replace ((1 + 3) / 2) with 2 in Ht by lra. exact Ht. }
+  pose proof (nearest_closest [0; 1; 3] 2 Ha ltac:(cbn; repeat constructor)) as Hc.
+  rewrite Hn in Hc. exact Hc.
+Qed.
